@@ -996,6 +996,9 @@ func (a *xAnalysis) computeLiveness() {
 				if m.Base != "" {
 					out[m.Base] = true
 				}
+				if m.Index != "" {
+					out[m.Index] = true
+				}
 			}
 			if e.UsesFlags {
 				out[flagsReg] = true
